@@ -40,6 +40,7 @@ func init() {
 	gwReg := func(prefix string, fn func(*sim.Run)) {
 		register("gw", prefix, true, func(t *testing.T, r *sim.Run) { gw.PreBubble(); inBubble(t, true, func() { fn(r) }) })
 	}
+	gwReg("c12p", gw.RunC12)
 	gwReg("c03", gw.RunC03)
 	gwReg("c03p", gw.RunC03)
 	gwReg("c04", gw.RunC04)
